@@ -22,8 +22,17 @@ def run(ctx):
                      names=["sunrise", "banana4", "double_triangle", "kite", "bubble_chain", "triangle_tadpole", "sunrise_tadpole", "bubble_chain3"],
                      mass_mode="some")
     # graphs with subgraphs of >=3 components (a bubble and two separated edges ...): many sectors per graph
-    ss += S.generate(ctx, 3 if ctx.quick else 12, 150 if ctx.quick else 400, max_e=7, max_loops=3, routings_per_graph=1, kinds=("uniform",),
-                     names=["hexagon_doubled", "box_doubled", "box_doubled"])
+    ss += S.generate(ctx, 2 if ctx.quick else 8, 150 if ctx.quick else 400, max_e=7, max_loops=3, routings_per_graph=1, kinds=("uniform",),
+                     names=["hexagon_doubled"])
+    ss += S.generate(ctx, 3 if ctx.quick else 12, 100 if ctx.quick else 300, max_e=7, max_loops=3, routings_per_graph=1, kinds=("uniform",),
+                     names=["box_doubled"])
+    # soft kinematics (all momenta and masses ~1e-10): the bounds are scale invariant, absolute thresholds are not
+    ss += S.generate(ctx, 8 if ctx.quick else 40, 4, max_e=5, max_loops=3, routings_per_graph=1, kinds=("uniform",),
+                     scales=(Fraction(1, 2 ** 33), Fraction(1, 2 ** 40)))
+    # exact integer degrees of divergence and even dimensions (integral exponents in the rescaling and in the weight)
+    ss += S.generate(ctx, 0, 4 if ctx.quick else 8, routings_per_graph=1, kinds=("uniform",),
+                     special=("integer_dod:4", "integer_dod:2", "integer_dod:3", "integer_dod:1", "integer_dod:4", "integer_dod:5", "integer_dod:6",
+                              "integer_dod:8") * (2 if ctx.quick else 8))
     ss += S.generate(ctx, 2 if ctx.quick else 8, 100 if ctx.quick else 300, max_e=7, max_loops=3, routings_per_graph=1, kinds=("uniform",),
                      names=["bubble_chain3"])
     # two-point functions: the externals are the end points of one propagator (a single remaining edge can still be
@@ -113,6 +122,12 @@ def evaluate(ctx, ss):
         ratio = mpf(b2f(a["jac"])) / mpf(cached)
         lo = mpf(NT) ** (-mpf(D) / 2) * (mpf(Csum.numerator) / mpf(Csum.denominator)) ** (-mpf(float(dod)))
         hi = (mpf(NT) * mpf(cmin.denominator) / mpf(cmin.numerator)) ** mpf(float(dod))
+        # the ratio IS (u_trop/u)^(D/2) (v_trop/v)^dod with u_trop = v_trop = 1 and the returned u, v
+        ctx.count("ratio_identity_checked"); ctx.count("ratio_identity.dod_is_integer" if float(dod) == int(float(dod)) else "ratio_identity.dod_generic")
+        rexp = mpf(b2f(a["u"])) ** (-mpf(D) / 2) * mpf(b2f(a["v"])) ** (-mpf(b2f(s["built"]["dod"])))
+        if abs(ratio - rexp) > mpf(1e-11) * (D + abs(float(dod)) + 2) * abs(rexp):
+            ctx.violation(f"jacobian/normalisation = {float(ratio)!r} is not u^(-D/2) v^(-dod) = {float(rexp)!r} for the returned u, v (D={D}, dod={float(dod)!r})",
+                          S.small_req(s), expected=float(rexp), observed=float(ratio)); continue
         sl = 1 + float((D / 2 + float(dod) + 2) * (slack - 1)) + 1e-9
         if not (lo / sl <= ratio <= hi * sl):
             ctx.violation(f"jacobian/normalisation = {float(ratio)!r} outside [N_T^(-D/2) C_sum^(-dod), (N_T/c_min)^dod] = [{float(lo)!r}, {float(hi)!r}]",
